@@ -304,6 +304,12 @@ func keywordClause(body []ast.Stmt, consts map[string]string) ([]tokKeyword, err
 		if k.Text == "" {
 			return nil, fmt.Errorf("empty keyword for token %s", k.Token)
 		}
+		for i := 0; i < len(k.Text); i++ {
+			// bytesPrefixString compares b[i] with byte(r) for the RUNES r of the keyword
+			if k.Text[i] >= 0x80 {
+				return nil, fmt.Errorf("keyword %q is not ASCII", k.Text)
+			}
+		}
 	}
 	return kws, nil
 }
@@ -378,6 +384,12 @@ func tokenSwitch(repo string) ([]tokClause, error) {
 			kws, err := keywordClause(cc.Body, consts)
 			if err != nil {
 				return nil, fmt.Errorf("clause %s: %v", nodeText(cc.List[0]), err)
+			}
+			for _, v := range cl.Bytes {
+				// a clause that falls out of the switch reaches `if r > utf8.RuneSelf`
+				if v >= 0x80 {
+					return nil, fmt.Errorf("keyword clause for the non-ASCII byte 0x%02x", v)
+				}
 			}
 			cl.Kind = "keywords"
 			cl.Keywords = kws
